@@ -1,6 +1,6 @@
 (* Props/C08.v -- property C08: MAC command handling is consistent and atomic: the device does what it answers. *)
 From Coq Require Import NArith ZArith List Bool.
-From LoraV Require Import Base.Bytes Model.MacCmd Gen.CmdTables Gen.RegionTables Model.Region Model.Mac Proofs.CmdProofs.
+From LoraV Require Import Base.Bytes Model.MacCmd Gen.CmdTables Gen.RegionTables Model.Region Model.Mac Proofs.CmdProofs Proofs.TxProofs.
 Import ListNotations.
 Local Open Scope N_scope.
 
@@ -93,3 +93,32 @@ Theorem C08_sticky_answers : forall (cmds : list (N * list N)),
   retain_acks (flat_map (fun cp => fst cp :: snd cp) cmds)
   = flat_map (fun cp => if sticky (fst cp) then fst cp :: snd cp else []) cmds.
 Proof. exact retain_acks_spec. Qed.
+
+(* An accepted LinkADRReq shows in the very next data uplink: whatever the region state was (in particular a fixed plan in the middle of a
+   join-sub-band bias, whose data frames otherwise go out at the join data rate), once the mask has been set the next data uplink is chosen
+   through the mask at the configured data rate *)
+Theorem C08_accepted_linkadr_governs_next_uplink : forall g m dr draws tc g' rest,
+  region_select (region_mask_set g m) dr false draws = Val (tc, g', rest) ->
+  tc_dr tc = dr /\
+  match rg_plan g with
+  | PFix p => fix_select_masked (rg_id g) (fix_mask_set p m) dr draws = Val (tc, match rg_plan g' with PFix p' => p' | _ => fix_mask_set p m end, rest)
+  | PDyn _ => True
+  end.
+Proof.
+  intros g m dr draws tc g' rest. unfold region_select, region_mask_set. cbn [rg_plan rg_id].
+  destruct (rg_plan g) as [p|p].
+  - destruct (dyn_select_data _ _ _ _) as [[tc0 rest0]| |] eqn:Es; try discriminate.
+    intros H. injection H as <- _ _. destruct (dyn_select_data_legal _ _ _ _ _ _ Es) as [c [_ [_ [_ [_ [D _]]]]]]. split; [exact D|exact I].
+  - unfold fix_select, fix_mask_set, jc_has_bias, jc_reset. cbn [fp_jc fp_mask jc_preferred jc_num_retries jc_max_retries].
+    change (0 =? 0) with true. cbn [negb andb].
+    assert (R : (match jc_preferred (fp_jc p) with Some _ => (0 <? jc_max_retries (fp_jc p)) && false | None => false end) = false)
+      by (destruct (jc_preferred (fp_jc p)); [apply andb_false_r|reflexivity]).
+    rewrite R.
+    set (pm := {| fp_mask := m; fp_jc := _ |}).
+    assert (E : (match jc_preferred (fp_jc p) with Some _ => fix_select_masked (rg_id g) pm dr draws | None => fix_select_masked (rg_id g) pm dr draws end)
+                = fix_select_masked (rg_id g) pm dr draws) by (destruct (jc_preferred (fp_jc p)); reflexivity).
+    rewrite E. destruct (fix_select_masked (rg_id g) pm dr draws) as [[[tc0 p'] rest0]| |] eqn:Es; try discriminate.
+    intros H. injection H as <- <- <-. cbn [rg_plan]. split; [|reflexivity].
+    destruct (fix_masked_legal _ _ _ _ _ _ _ Es) as [_ [_ [_ [D _]]]]. exact D.
+Qed.
+
